@@ -73,7 +73,7 @@ PROPS["C09"] = {
     "level_text": ("generated layouts (1-20 segments of 1-9 messages with varying byte sizes and timestamps) and every combination of the bytes/messages/age "
                    "limits with values placed exactly at, one below and one above the layout's suffix sums / segment last-timestamps (plus tiny and huge), 1-6 "
                    "cleans with further appends in between; the expected cut k* = max(k_age,k_msgs,k_bytes) capped at n-1 is computed on the model and the "
-                   "survivors must be exactly segments [k*,n), byte-identical, readable from every start offset. Unit C09exh: a fixed layout of four appends, then EVERY sequence of up to 3 (thorough: 4) letters of a 20-letter alphabet (appends incl. one whose timestamps go back at an epoch bump, reopen, HW move, 13 cleans: byte / message / age limits exactly at, one below and one above a cumulative sum of the layout, an age clean with an append while it runs, all three limits together, the tiny and the all-expired extremes), for 150- and 64-byte segments, through the same executor and oracle"),
+                   "survivors must be exactly segments [k*,n), byte-identical, readable from every start offset; one clean in six is preceded by a cleaning cycle in which deleting one non-active segment fails (its log file is closed behind its back) - once the fault is gone the clean proper must succeed and the directory must hold exactly the log's segments. Unit C09crash (child processes killed at every hit of every crash point inside a retention clean, the machinery of C05): what a restart finds holds every message that had to survive and is one contiguous run of offsets. Unit C09exh: a fixed layout of four appends, then EVERY sequence of up to 3 (thorough: 4) letters of a 20-letter alphabet (appends incl. one whose timestamps go back at an epoch bump, reopen, HW move, 13 cleans: byte / message / age limits exactly at, one below and one above a cumulative sum of the layout, an age clean with an append while it runs, all three limits together, the tiny and the all-expired extremes), for 150- and 64-byte segments, through the same executor and oracle"),
     "level_note": "timestamps non-decreasing except at an epoch bump (a new leader whose clock is behind); computeTTL is replaced by a fixed cut-off through the package variable meant for it; unit C09b (-race, both tiers): message-count retention concurrent with an appending goroutine: what is left is a gap-free suffix of what was appended, the newest message included",
     "rule": ("rapid draws max segment bytes from {1,64,150,300,1024}, 1-3 rounds of (0-18 appends of 1-3 messages, optional reopen, optional HW move, 1-2 Clean() calls "
              "whose limits are selectors resolved against the current model layout). Non-trivial = a clean on >=3 segments with >=1 limit active whose expected "
@@ -83,6 +83,9 @@ PROPS["C09"] = {
         {"name": "C09", "pkg": "server/commitlog", "test": "TestVerifC09",
          "quick": {"shards": 16, "checks": 1500}, "thorough": {"shards": 16, "checks": 15000, "timeout": 3000}},
         # bounded-exhaustive: a fixed 4-append layout, then every sequence of <= LEN letters of a 20-letter alphabet, for 150- and 64-byte segments
+        # crash inside a retention clean (the child-process machinery of C05): what a restart finds is a contiguous suffix
+        {"name": "C09crash", "pkg": "server/commitlog", "test": "TestVerifC09Crash",
+         "quick": {"shards": 16, "checks": 3}, "thorough": {"shards": 16, "checks": 100, "timeout": 3400}},
         {"name": "C09exh", "pkg": "server/commitlog", "test": "TestVerifC09Exh", "kind": "exhaustive",
          "quick": {"shards": 16, "params": {"LEN": 3}}, "thorough": {"shards": 16, "params": {"LEN": 4}, "timeout": 3000}},
         {"name": "C09b", "pkg": "server/commitlog", "test": "TestVerifC09b", "common": {"race": True},
@@ -95,7 +98,7 @@ PROPS["C08"] = {
     "level_text": ("generated key patterns (nil, empty, 4 short keys, a 200-byte key, runs of one key), 2-30 segments, HW anywhere, 1/2/4/10 compaction workers, "
                    "repeated cleans with HW moves and appends in between, optionally with retention limits; oracle: Must (keyless, >=HW, newest segment, latest "
                    "committed per key) is a subset of the survivors, survivors are a subset of the log before, unchanged and ordered; then forward uncommitted, "
-                   "forward committed and reverse committed readers from every start offset return exactly the survivors in range; committed readers that have already delivered part of the log stay parked across the cleans (also cleans that replace the segment they are in, with appends during the clean) and must continue with the next survivor, once. Unit C08exh: three keyed appends, then EVERY sequence of up to 4 (thorough: 5) letters of a 14-letter alphabet (appends with two keys and a keyless message, the empty key in a segment of its own, a run of one key, a keyless message; HW by one or to the end; reopen; compaction with 1 or 4 workers or with a byte limit; a parked committed reader, its reads, a probe) through the same executor and oracle"),
+                   "forward committed and reverse committed readers from every start offset return exactly the survivors in range; committed readers that have already delivered part of the log stay parked across the cleans (also cleans that replace the segment they are in, with appends during the clean) and must continue with the next survivor, once. Unit C08crash (child processes killed at every hit of every crash point inside a compacting clean, the machinery of C05): the log a restart finds holds, unchanged and at their offsets, all messages that had to survive the compaction, nothing that was never appended, and stays usable. Unit C08exh: three keyed appends, then EVERY sequence of up to 4 (thorough: 5) letters of a 14-letter alphabet (appends with two keys and a keyless message, the empty key in a segment of its own, a run of one key, a keyless message; HW by one or to the end; reopen; compaction with 1 or 4 workers or with a byte limit; a parked committed reader, its reads, a probe) through the same executor and oracle"),
     "level_note": "empty-but-non-nil keys are generated although only the commit-log API can store them; unit C08b (-race, both tiers): Clean() with 1-3 repetitions runs while another goroutine appends and rolls segments; schedule-independent oracle (survivors are original messages in order, everything that had to survive is there, the log stays usable and reopens to the same content)",
     "rule": ("rapid draws max segment bytes from {1,64,150,300,1024}, 1-3 rounds of (appends of 1-4 keyed messages with run-length bias, HW moves, optional reopen, a "
              "compacting Clean() with generated worker count, 0-2 repeat cleans). Non-trivial = a compaction over >=3 segments with the HW strictly inside the log "
@@ -105,6 +108,9 @@ PROPS["C08"] = {
         {"name": "C08", "pkg": "server/commitlog", "test": "TestVerifC08",
          "quick": {"shards": 16, "checks": 1000}, "thorough": {"shards": 16, "checks": 10000, "timeout": 3000}},
         # bounded-exhaustive: three keyed appends, then every sequence of <= LEN letters of a 14-letter alphabet
+        # crash inside a compaction (the child-process machinery of C05): everything that had to survive is there after a restart
+        {"name": "C08crash", "pkg": "server/commitlog", "test": "TestVerifC08Crash",
+         "quick": {"shards": 16, "checks": 3}, "thorough": {"shards": 16, "checks": 100, "timeout": 3400}},
         {"name": "C08exh", "pkg": "server/commitlog", "test": "TestVerifC08Exh", "kind": "exhaustive",
          "quick": {"shards": 16, "params": {"LEN": 4}}, "thorough": {"shards": 16, "params": {"LEN": 5}, "timeout": 3000}},
         {"name": "C08b", "pkg": "server/commitlog", "test": "TestVerifC08b", "common": {"race": True},
@@ -180,7 +186,7 @@ PROPS["C17"] = {
 PROPS["C19"] = {
     "level": "exploration",
     "technique": "property-based testing (rapid): disable-route x value products against an effective-setting model, recorded HTTP transport, payload key whitelist + marker taint check",
-    "level_text": '(a) collector level: http.DefaultTransport replaced by a recorder; Enabled=false => zero requests over many intervals and restarts; enabled => every request goes to the documented endpoint, its JSON keys are a subset of the documented whitelist, no marker/data-dir string in body or headers, nothing after Stop; (cfg) every route of disabling telemetry - config file true/false/absent x LIFTBRIDGE_TELEMETRY_ENABLED unset/false/0/FALSE/f/true/1 x with/without file - against the precedence model env > file > default',
+    "level_text": '(a) collector level: http.DefaultTransport replaced by a recorder; Enabled=false => zero requests over many intervals and restarts; enabled => every request goes to the documented endpoint, its JSON keys are a subset of the documented whitelist, no marker/data-dir string in body or headers, nothing after Stop; in half of the enabled cases deliveries fail in a generated pattern (status 500/404 with a response that names a host and an address, or a transport error whose text carries an address) between deliveries that get through, and every later report is held to the same whitelist and must not carry those names; (cfg) every route of disabling telemetry - config file true/false/absent x LIFTBRIDGE_TELEMETRY_ENABLED unset/false/0/FALSE/f/true/1 x with/without file - against the precedence model env > file > default',
     "level_note": 'unit C19b starts a whole server with telemetry on or off (off: with telemetry intervals 1, 0, -1 and 86400 s) with streams, messages and NATS credentials that carry a marker, and watches the recorded transport: no request when off (for 2 s if the server created a collector all the same - on the present code it does not), only documented fields and no marker when on',
     "rule": 'rapid draws collector configs (enabled, interval 1ms-24h, marker in the data dir, waits, restart) and configuration cases. Non-trivial = a disabled collector that lived through several intervals, any enabled case, an env route that overrides or replaces the file, or a file route that disables.',
     "assumptions": TRUST,
@@ -197,7 +203,7 @@ PROPS["C19"] = {
 PROPS["C12"] = {
     "level": "exploration",
     "technique": "model-based stateful property testing (rapid) + bounded-exhaustive enumeration of short histories; invariant over assignments + determinism between two replicas",
-    "level_text": 'histories of join/leave/expire/stream-delete/stream-create over one consumer group (<=5 members, <=3 streams, 1-5 partitions) on the real consumerGroup object; after every step: every partition of every subscribed stream has exactly one owner who subscribed to it, nobody holds foreign or non-existent partitions, single-stream groups differ by <=1, a second object fed the same history (optionally rebuilt from a snapshot of its members in another order) hands out identical assignments, a stale epoch is refused. Unit C12exh runs EVERY sequence of up to 5 (thorough: 6) operations over a 14-letter alphabet (join of m0-m2 to {s0},{s1},{s0,s1}; leave of m0-m2; delete and re-create of s0; s0 has 2 then 3 partitions, s1 has 3) through the same executor and oracle',
+    "level_text": 'histories of join/leave/expire/stream-delete/stream-create over one consumer group (<=5 members, <=3 streams, 1-5 partitions) on the real consumerGroup object; after every step: every partition of every subscribed stream has exactly one owner who subscribed to it, nobody holds foreign or non-existent partitions, single-stream groups differ by <=1, a second object fed the same history (optionally rebuilt from a snapshot of its members in another order) hands out identical assignments, a stale epoch is refused; in half of the histories (and in all of C12exh) the second object plays a server that applies the operations while it replays its Raft log: a deleted stream is only tombstoned there and still reports its partitions, and both objects must hand out the same assignments all the same. Unit C12exh runs EVERY sequence of up to 5 (thorough: 6) operations over a 14-letter alphabet (join of m0-m2 to {s0},{s1},{s0,s1}; leave of m0-m2; delete and re-create of s0; s0 has 2 then 3 partitions, s1 has 3) through the same executor and oracle',
     "level_note": 'object level (the metadata layer around it is exercised by C06); timers set to 1h so expiry is a generated operation; while the open finding C12-snapshot-restore-changes-assignments is excluded, only the comparison of the rebuilt object with the live one is skipped: the rebuild is still performed and the rebuilt object is held to the assignment invariants (signature prefix C12/restored-group/)',
     "rule": 'rapid draws 1-25 operations with preconditions resolved at run time. Non-trivial = >=3 members with overlapping subscriptions and a later leave/expire/stream delete. C12exh: 579,194 sequences (quick) / 8,108,730 (thorough), complete for its alphabet and length bound (coverage.exhaustive_units).',
     "assumptions": TRUST,
@@ -237,6 +243,9 @@ PROPS["C06"] = {
          "quick": {"shards": 16, "checks": 150}, "thorough": {"shards": 16, "checks": 5000, "timeout": 3000}},
         {"name": "C06c", "pkg": "server", "test": "TestVerifC06c",
          "quick": {"shards": 8, "checks": 3, "timeout": 600}, "thorough": {"shards": 8, "checks": 25, "timeout": 3000}},
+        # a started single-node server that commits nothing of its own: restarts from a snapshot with nothing to replay behind it
+        {"name": "C06s", "pkg": "server", "test": "TestVerifC06s",
+         "quick": {"shards": 8, "checks": 5, "timeout": 900}, "thorough": {"shards": 16, "checks": 60, "timeout": 3000}},
     ],
 }
 
@@ -338,7 +347,7 @@ PROPS["C02"] = {
 PROPS["C05"] = {
     "level": "fault_enumeration",
     "technique": "fault injection at named crash points (build-tag hooks) in a child process + journal-based Must/May oracle; every hit of every crash point enumerated per generated workload (unit C05enum), plus sampled (point, occurrence) pairs over many more workloads (unit C05)",
-    "level_text": ("a workload from the C01/C08/C09 operation alphabet (appends that roll, replicated sets, truncations, retention and compaction cleans, HW moves, checkpoints, reopens) runs in a child process that is SIGKILLed by a build-tag hook at a named point between two file-system effects (log write / index write / file create / rename / remove / checkpoint replace); the child journals, before every operation, the state before it and the state predicted after it (obtained from a shadow log driven with the hooks suspended). The parent reopens what the crash left behind and checks: New succeeds; offsets strictly increase; every message equals the journalled one; Must (in both states) is a subset of what is read, which is a subset of May (in either state); HW not above the pre-crash HW; epoch history covers the newest message; and the log stays usable (appends get the next offsets, reopen/truncate/clean keep the contents consistent). unit C05enum enumerates every hit of every crash point for each of its workloads (quick: 48 workloads, thorough: 1920); unit C05 samples one (point, occurrence) pair per workload over many more workloads"),
+    "level_text": ("a workload from the C01/C08/C09 operation alphabet (appends that roll, replicated sets, truncations, retention and compaction cleans, HW moves, checkpoints, reopens) runs in a child process that is SIGKILLed by a build-tag hook at a named point between two file-system effects (log write / index write / file create / rename / remove / checkpoint replace); the child journals, before every operation, the state before it and the state predicted after it (obtained from a shadow log driven with the hooks suspended). The parent reopens what the crash left behind and checks: New succeeds; offsets strictly increase; every message equals the journalled one; Must (in both states) is a subset of what is read, which is a subset of May (in either state); HW not above the pre-crash HW; epoch history covers the newest message; a log on which compaction never ran reads as one contiguous run of offsets (no hole left by a half-done truncation or retention clean); and the log stays usable (appends get the next offsets, reopen/truncate/clean keep the contents consistent). unit C05enum enumerates every hit of every crash point for each of its workloads (quick: 48 workloads, thorough: 1920); unit C05 samples one (point, occurrence) pair per workload over many more workloads"),
     "level_note": "process-crash model (what was written stays; no torn writes, no power loss), crashes only at the 20 instrumented points (hooks listed in MANIFEST.hooks); index entries are written through a shared mmap, which survives SIGKILL like the page cache",
     "rule": "rapid draws a workload of 3-22 operations, a crash-point hit selector (resolved by a counting run of the same workload) and 1-4 tail operations. Non-trivial = the kill happened inside an operation (not while opening the log). C05enum: every generated workload x every crash-point hit (counters crash_points_in_workload / crashes).",
     "assumptions": TRUST,
